@@ -130,6 +130,73 @@ func isZeroByteDetector(b *ssa.BinOp) bool {
 	return match(ib.X, ib.Y) || match(ib.Y, ib.X)
 }
 
+// detectorWords: the words w of the zero-byte detectors ((w - lo) & ^w & hi) that make up mask v.
+func detectorWords(v ssa.Value, seen map[ssa.Value]bool, out *[]ssa.Value) {
+	if v == nil || seen[v] {
+		return
+	}
+	seen[v] = true
+	switch x := v.(type) {
+	case *ssa.BinOp:
+		if isZeroByteDetector(x) {
+			inner := x.X
+			if c, ok := constU64(x.X); ok && c == swarHi {
+				inner = x.Y
+			}
+			ib := inner.(*ssa.BinOp)
+			for _, side := range []ssa.Value{ib.X, ib.Y} {
+				if sb, ok := side.(*ssa.BinOp); ok && sb.Op == token.SUB {
+					*out = append(*out, sb.X)
+				}
+			}
+			return
+		}
+		detectorWords(x.X, seen, out)
+		detectorWords(x.Y, seen, out)
+	case *ssa.Phi:
+		for _, e := range x.Edges {
+			detectorWords(e, seen, out)
+		}
+	}
+}
+
+// foreignWordSource: the word examined by a detector is assembled by something other than a plain 8-byte load
+// of the haystack (encoding/binary's Uint64 on a slice) combined with constants and needle masks: the first
+// call found in its expression that is not such a load.
+func foreignWordSource(w ssa.Value, seen map[ssa.Value]bool) *ssa.Call {
+	if w == nil || seen[w] {
+		return nil
+	}
+	seen[w] = true
+	switch x := w.(type) {
+	case *ssa.BinOp:
+		if c := foreignWordSource(x.X, seen); c != nil {
+			return c
+		}
+		return foreignWordSource(x.Y, seen)
+	case *ssa.UnOp:
+		return foreignWordSource(x.X, seen)
+	case *ssa.Convert:
+		return foreignWordSource(x.X, seen)
+	case *ssa.Phi:
+		for _, e := range x.Edges {
+			if c := foreignWordSource(e, seen); c != nil {
+				return c
+			}
+		}
+	case *ssa.Call:
+		if x.Call.IsInvoke() {
+			return x
+		}
+		cal := x.Call.StaticCallee()
+		if cal != nil && cal.Pkg != nil && cal.Pkg.Pkg.Path() == "encoding/binary" && strings.HasPrefix(cal.Name(), "Uint") {
+			return nil
+		}
+		return x
+	}
+	return nil
+}
+
 func flattenAnd(b *ssa.BinOp) []ssa.Value {
 	var out []ssa.Value
 	var walk func(v ssa.Value)
@@ -176,7 +243,7 @@ func swarDependsOn(v, src ssa.Value, seen map[ssa.Value]bool) bool {
 func init() {
 	core.Register(&core.Rule{
 		Name: "R-SWAR",
-		Doc: "Word-at-a-time (SWAR) scans report only genuine positions and skip none. The zero-byte detector (w-0x01..01) & ^w & 0x80..80 can set spurious marker bits, but only above a genuine one, so the lowest marker of one detector - and of an OR of detectors - is exact. The lowest marker of an AND of detectors (byte pair search: byte1 at i and byte2 at i+offset) may be an artefact of one component, and so may any marker that remains after the lowest was cleared. For every bits.TrailingZeros64 applied to a marker mask in package simd: (a) if the mask is exact-lowest the position may be returned as is; (b) if it is inexact, every return that depends on the position is dominated by one byte comparison per ANDed detector between the haystack at that position and a needle; and (c) the mask is iterated - it is a loop-carried value reduced by clearing the examined marker - so a failed verification moves on to the next marker of the same word instead of skipping the rest of it. Necessary for C18 (the generic fallbacks equal their scalar definitions) and C16 (the rare-byte pair search behind Memmem never skips an occurrence). Four seeding agents removed or weakened this verification.",
+		Doc: "Word-at-a-time (SWAR) scans report only genuine positions and skip none. The zero-byte detector (w-0x01..01) & ^w & 0x80..80 can set spurious marker bits, but only above a genuine one, so the lowest marker of one detector - and of an OR of detectors - is exact. The lowest marker of an AND of detectors (byte pair search: byte1 at i and byte2 at i+offset) may be an artefact of one component, and so may any marker that remains after the lowest was cleared. For every bits.TrailingZeros64 applied to a marker mask in package simd: (a) if the mask is exact-lowest the position may be returned as is; (b) if it is inexact, every return that depends on the position is dominated by one byte comparison per ANDed detector between the haystack at that position and a needle; and (c) the mask is iterated - it is a loop-carried value reduced by clearing the examined marker - so a failed verification moves on to the next marker of the same word instead of skipping the rest of it. Necessary for C18 (the generic fallbacks equal their scalar definitions) and C16 (the rare-byte pair search behind Memmem never skips an occurrence). (d) The word a detector examines is a plain 8-byte load of the haystack (encoding/binary Uint64) combined with constants and needle masks; a word assembled by a helper (zero-padded tail) contains bytes that are not haystack bytes. A position taken from a word of any other construction is undecided (a per-byte addition on a packed word carries between bytes). Four seeding agents removed or weakened the verification, one introduced an unmasked range test.",
 		Min: 4, NeedSSA: true,
 		Run: func(p *core.Prog) *core.RuleResult {
 			res := &core.RuleResult{}
@@ -203,9 +270,43 @@ func init() {
 						m := call.Call.Args[0]
 						kind, n := swarKind(m, map[ssa.Value]bool{})
 						if kind == 0 {
+							// a mask of a form the rule does not know: if a returned position depends on it, its
+							// exactness is undecided - byte-wise additions without masking the high bits carry
+							// into the neighbouring byte (digit test: a byte >= 0x80 in front of '9' hides it)
+							dep := false
+							for _, rb := range fn.Blocks {
+								for _, rin := range rb.Instrs {
+									if ret, ok := rin.(*ssa.Return); ok {
+										for _, r := range ret.Results {
+											if swarDependsOn(r, call, map[ssa.Value]bool{}) {
+												dep = true
+											}
+										}
+									}
+								}
+							}
+							if dep {
+								res.Obligations = append(res.Obligations, core.Obligation{Key: kc.Key("R-SWAR", core.FuncName(fn), "position from marker mask"), Pos: p.Pos(call.Pos()), Nontrivial: true, Status: core.Undecided,
+									Detail: "a returned position is computed from the trailing zeros of a word that is not built from the zero-byte detector (w-0x01..01) & ^w & 0x80..80: whether its lowest set bit marks a genuine byte cannot be decided (per-byte arithmetic on a packed word carries between bytes unless the high bits are masked first)"})
+							}
 							continue
 						}
 						o := core.Obligation{Key: kc.Key("R-SWAR", core.FuncName(fn), "position from marker mask"), Pos: p.Pos(call.Pos()), Nontrivial: true}
+						// (d) the examined word consists of haystack bytes only
+						var words []ssa.Value
+						detectorWords(m, map[ssa.Value]bool{}, &words)
+						foreign := ""
+						for _, w := range words {
+							if c := foreignWordSource(w, map[ssa.Value]bool{}); c != nil {
+								foreign = p.Pos(c.Pos())
+							}
+						}
+						if foreign != "" {
+							o.Status = core.Undecided
+							o.Detail = "the word the detector examines is not a plain 8-byte load of the haystack (call at " + foreign + "): bytes that are not haystack bytes - padding of a partial word - can match a needle (0x00 matches zero padding) and the reported position lies outside the haystack"
+							res.Obligations = append(res.Obligations, o)
+							continue
+						}
 						if kind == 1 {
 							o.Status = core.Discharged
 							o.Detail = "the mask is one zero-byte detector or an OR of detectors: its lowest marker is exact"
